@@ -99,10 +99,10 @@ func c12BRun(c C12BCase, st *kit.Stats) error {
 			st.Class("timeout-0")
 			continue
 		}
-		v, err := conn.Read(time.Duration(c.TimeoutUs)*time.Microsecond + 2*time.Second)
+		v, err := conn.Read(time.Duration(c.TimeoutUs)*time.Microsecond + 5*time.Second)
 		d := time.Since(t0)
 		if err != nil {
-			return fmt.Errorf("%v did not complete within timeout + 2 s: %v", argv, err)
+			return fmt.Errorf("%v did not complete within timeout + 5 s: %v", argv, err)
 		}
 		if v.K != kit.KNil {
 			return fmt.Errorf("%v timed out with %s, expected a null reply", argv, v)
